@@ -123,7 +123,10 @@ def space_pool(rng, tier):
         (Sp('odl.rn(%d, weighting=%r)' % (n, rng.choice([0.5, 2.0, 4.0]))), 'rn-const'),
         (Sp('odl.rn(%d, weighting=%r)' % (n, arr)), 'rn-array'),
         (Sp('odl.uniform_discr(0, %r, %d)' % (rng.choice([1.0, 2.0, 0.5 * n, 4.0 * n]), n)), 'discr'),
-        (Sp('odl.uniform_discr([0, 0], [1, %r], [2, %d])' % (rng.choice([1.0, 3.0]), rng.choice([1, 2]))), 'discr2d'),
+        (Sp('odl.uniform_discr([0, 0], [1, %r], [2, %d])' % (rng.choice([1.0, 3.0]), rng.choice([1, 2, 3]))), 'discr2d'),
+        (Sp('odl.rn((2, 3)%s)' % rng.choice(['', ', weighting=0.5', ', weighting=2.0'])), 'rn2d'),
+        (Sp('odl.uniform_discr([0, 0, 0], [1, 1, %r], [2, 1, 3])' % rng.choice([3.0, 1.5])), 'discr3d'),
+        (Sp('odl.rn((3, 2), weighting=np.array([[1.0, 2.0], [0.5, 4.0], [0.25, 1.0]]))'), 'rn-array'),
     ]
     return pool
 
@@ -232,6 +235,71 @@ def rand_leaf(rng, tier, kind=None):
     elif kind == 'sumc':
         p['c'] = rng.choice([1.0, 2.0, -1.5, 0.5, 4.0])
     return ('leaf', kind, p, sp)
+
+
+GRID_SPACES = [
+    ('odl.rn(3)', 'rn'), ('odl.rn(1)', 'rn'), ('odl.rn(3, weighting=2.0)', 'rn-const'),
+    ('odl.rn(3, weighting=[0.5, 1.0, 4.0])', 'rn-array'), ('odl.uniform_discr(0, 2.0, 4)', 'discr'),
+    ('odl.rn((2, 3))', 'rn2d'), ('odl.rn((2, 3), weighting=0.5)', 'rn2d'),
+    ('odl.uniform_discr([0, 0], [1, 3.0], [2, 3])', 'discr2d'),
+    ('odl.uniform_discr([0, 0, 0], [1, 1, 3.0], [2, 1, 3])', 'discr3d'),
+    ('odl.ProductSpace(odl.rn(2), 3)', 'pow-rn'), ('odl.ProductSpace(odl.rn((2, 2)), 2)', 'pow-rn2d'),
+    ('odl.ProductSpace(odl.rn(2), 3, weighting=[1.0, 2.0, 0.5])', 'wpow-rn'),
+    ('odl.ProductSpace(odl.rn(2), odl.rn(3))', 'prod-rn-rn'),
+]
+GRID_BASES = [('odl.rn(2)', 2), ('odl.rn(3, weighting=[0.5, 1.0, 4.0])', 3), ('odl.rn((2, 2))', 4),
+              ('odl.uniform_discr([0, 0], [1, 3.0], [2, 3])', 6), ('odl.rn(1)', 1)]
+GRID_PARAMS = {
+    'const': [{'c': -1.5}], 'indzero': [{'c': 0.0}, {'c': 2.0}],
+    'box': [{'lo': -1.0, 'hi': 1.0}, {'lo': None, 'hi': 0.0}, {'lo': 0.5, 'hi': 0.5}],
+    'huber': [{'gamma': 0.0}, {'gamma': 0.015625}, {'gamma': 64.0}, {'gamma': 1.0}],
+    'simplex': [{'diam': 1.0}, {'diam': 0.015625}, {'diam': 64.0}],
+    'sumc': [{'c': 1.0}, {'c': -3.0}, {'c': 64.0}],
+}
+GRID_STEPS = [0.015625, 1.0, 64.0]
+
+
+def corner_grid(rng, all_steps=False):
+    """Deterministic crossing: every leaf class x parameter corner values x every space kind (1-d, N-d tensor /
+    discretized, constant / array weights, power / weighted power / non-power product spaces) x tiny / unit / huge step.
+    Yields (tree, step, x)."""
+    for kind in LEAF_KINDS:
+        if kind in ('groupl1', 'groupball', 'huberg'):
+            for bcode, m in GRID_BASES:
+                for d in (1, 2, 3):
+                    plist = [{'two': True}, {'two': False}] if kind != 'huberg' else \
+                        [{'gamma': 0.0}, {'gamma': 0.015625}, {'gamma': 64.0}, {'gamma': 1.0}]
+                    for p in plist:
+                        q = dict(p, m=m, d=d)
+                        t = ('leaf', kind, q, Sp('odl.ProductSpace(%s, %d)' % (bcode, d)))
+                        sg = GRID_STEPS[(m + d + len(repr(p))) % 3]
+                        # points whose pointwise norms lie on both sides of the step, with several non-zero components
+                        x = [rng.choice([-1, 1]) * rng.choice([0.25, 0.5, 1.5, 3.0, 6.0]) for _ in range(m * d)]
+                        yield t, ('scal', sg), x, True, 'pow'
+            continue
+        for si, (scode, tag) in enumerate(GRID_SPACES):
+            sp = Sp(scode)
+            for pi, p in enumerate(GRID_PARAMS.get(kind, [{}])):
+                p = dict(p)
+                if kind == 'box':
+                    n = sp.n
+                    if p['lo'] == 0.5:      # degenerate box as element-valued bounds
+                        p = {'lo': [0.5] * n, 'hi': [0.5] * n}
+                t = ('leaf', kind, p, sp)
+                corr_ok = finding_key(kind, sp) not in ('proj-simplex-nonpower-product-space',
+                                                        'huber-nonpower-product-space',
+                                                        'indicator-sum-constraint-nonpower-product-space')
+                if kind == 'huber' and 'ProductSpace' in scode:
+                    # Huber on a product space is the vector-field Huber: modelled by FHuberG on unweighted power spaces
+                    if tag in ('pow-rn', 'pow-rn2d'):
+                        d = len(sp.space)
+                        t = ('leaf', 'huberg', dict(p, m=sp.n // d, d=d), sp)
+                    else:
+                        corr_ok = False
+                steps = GRID_STEPS if all_steps else [GRID_STEPS[(si + pi) % 3]]
+                for sg in steps:
+                    x = [rng.choice([-1, 1]) * rng.choice([0.25, 0.5, 1.5, 3.0, 6.0, 0.0]) for _ in range(sp.n)]
+                    yield t, ('scal', sg), x, corr_ok, tag
 
 
 def tree_dim(t):
@@ -558,9 +626,14 @@ def tree_cases(rng, tier):
     made = 0
     # every leaf kind at depth 0 first, then random trees
     todo = [('leafonly', k) for k in LEAF_KINDS for _ in range(2 if tier == 'quick' else 6)]
-    while made < ntrees:
+    grid = [g for g in corner_grid(rng, all_steps=(tier != 'quick')) if g[3]]
+    while made < ntrees or grid:
+        forced = None
         try:
-            if todo:
+            if grid:
+                t, gstep, gx, _, _ = grid.pop()
+                forced = (gstep, gx)
+            elif todo:
                 _, kind = todo.pop()
                 t = rand_leaf(rng, tier, kind)
             else:
@@ -570,7 +643,7 @@ def tree_cases(rng, tier):
         except Skip:
             continue
         n = tree_dim(t)
-        for rep in range(3):
+        for rep in range(3 if forced is None else 1):
             conj = (rep == 2)          # third variant: FunctionalDefaultConvexConjugate(f).proximal (Moreau rule)
             step = rand_step(rng, t, allow_struct=(rep == 1))
             if conj:
@@ -579,6 +652,8 @@ def tree_cases(rng, tier):
                     step = ('vec', [pos(rng) for _ in range(n)])
             r = rng.random()
             x = kink_points(rng, n, step) if r < 0.3 else ([0.0] * n if r < 0.36 else vec(rng, n))
+            if forced is not None:
+                step, x = forced
             X = f.domain
             xe = unflatten(X, x)
             val = 'IVSkip'
@@ -610,7 +685,8 @@ def tree_cases(rng, tier):
                     'python': 'f = %s; f.proximal(%s)(unflatten(f.domain, %r))'
                               % (tree_code(t), step_code(step, 'f.domain'), x)}
             cs.add(term, desc, (tree_desc(t), repr(step), tuple(x), conj) if any(x) else None)
-        made += 1
+        if forced is None:
+            made += 1
     return cs
 
 
@@ -969,6 +1045,8 @@ def finding_key(kind, sp):
         return 'indicator-l1-ball-weighted-space'
     if kind == 'simplex' and _nonconst_weights(sp):
         return 'indicator-simplex-nonuniform-weights'
+    if kind in ('sumconstr', 'sumc') and not power:
+        return 'indicator-sum-constraint-nonpower-product-space'
     if kind in ('sumconstr', 'sumc') and _nonconst_weights(sp):
         return 'indicator-sum-constraint-nonuniform-weights'
     if kind in ('nuclear-np.inf',):
@@ -1029,7 +1107,7 @@ def probes(rng, tier):
         except Exception as e:   # noqa
             ok, detail, wz = False, 'raised %s: %s' % (type(e).__name__, str(e)[:120]), None
         if not ok and detail and detail.startswith('f(p) =') and 'IndicatorLpUnitBall' in fcode and ', 1)' in fcode \
-                and key.startswith('opt-'):
+                and key.startswith(('opt-', 'grid-')):
             key = 'indicator-l1-ball-rounding-outside'     # recorded: proj_l1 has no safety margin
         out.append(C.Probe(ok, key, what, optimal_replay(fcode, spec, xflat, wz), detail))
         return ok
@@ -1052,6 +1130,29 @@ def probes(rng, tier):
             fk = finding_key(k0, sp)
             key = fk or 'opt-%s-%s-%s' % (k0, _space_kind(sp.code), spec[0])
             run_case(k0, tree_code(t), sp, spec, x, key)
+    # 1b. deterministic corner grid: parameter corners x every space kind (N-d, weighted, power / non-power products)
+    INDICATORS = ('box', 'nonneg', 'indzero', 'ballinf', 'ball2', 'ball1', 'simplex', 'groupball', 'sumc')
+    for t, spec, x, corr_ok, tag in corner_grid(rng, all_steps=(tier != 'quick')):
+        k0, sp = t[1], t[3]
+        fk = finding_key('huber' if k0 == 'huberg' else k0, sp)
+        key = fk or 'grid-%s-%s' % (k0, tag)
+        ok = run_case(k0, tree_code(t), sp, spec, x, key)
+        if ok and k0 in INDICATORS:
+            code = tree_code(t)
+            rp = (PROBE_PRELUDE + "f = %s\nX = f.domain\nx = unflatten(X, %r)\nP = f.proximal(%r); p = P(x); pp = P(p)\n"
+                  "observed = {'f(p)': float(f(p)), 'dist(P(p), p)': float((pp - p).norm())}\n"
+                  "ok = bool(np.isfinite(float(f(p)))) and float((pp - p).norm()) <= 1e-9*(1+float(p.norm()))\n"
+                  % (code, x, spec[1]))
+            e2 = {}
+            try:
+                exec(rp, e2)
+                ok2 = bool(e2['ok'])
+            except Exception:
+                ok2 = False
+            if not ok2 and k0 == 'ball1' and e2.get('observed', {}).get('dist(P(p), p)', 1) <= 1e-9:
+                fk = fk or 'indicator-l1-ball-rounding-outside'
+            out.append(C.Probe(ok2, fk or 'grid-idempotent-%s-%s' % (k0, tag),
+                               '%s: proximal lands in the set and is idempotent' % code, rp))
     # 2. derived functionals (random trees)
     ntrees = 40 if tier == 'quick' else 300
     made = 0
